@@ -109,7 +109,7 @@ func main() {
 		fl("B."+c+".same_raw_other_text.accepted_or_rejected", 50, 2000)
 	}
 	fl("B.scrypt-chacha20poly1305.crafted_meta", 5000, 250000)
-	fl("B.scrypt-chacha20poly1305.crafted_meta.reached_aead", 200, 10000)
+	fl("B.scrypt-chacha20poly1305.crafted_meta.reached_aead", 300, 15000)
 	fl("B.scrypt-chacha20poly1305.crafted_prefix", 1200, 60000)
 	fl("B.sha256-xor.crafted_checksum", 1500, 60000)
 	r.Finish("A: wallets (deterministic / bip44 incl. change chain and second account / collection) with random seeds, passphrases and passwords, locked with sha256-xor or scrypt (insecure registration; the default one twice in the thorough tier); B: per cipher random bytes, random base64, valid ciphertexts (right/wrong password), every kind of text- and raw-level deletion/truncation/bit flip, and structured metadata (length prefix, JSON fields, scrypt parameters, nonce/salt sizes; for sha256-xor payload edits with a recomputed outer checksum); all drawn from the run seed",
@@ -693,6 +693,27 @@ func scryptMeta(rng *rand.Rand) (string, bool) {
 			`{"N":16,"R":1,"P":1,"KEYLEN":32,"SALT":"AAAA","NONCE":"AAAAAAAAAAAAAAAA"}`, `{"n":16,"n":0,"r":1,"p":1,"keyLen":32,"salt":"","nonce":"AAAAAAAAAAAAAAAA"}`}
 		return odd[rng.Intn(len(odd))], false
 	}
+	if rng.Intn(4) == 0 {
+		// a well-formed header with at most one field off: most of these reach the AEAD
+		n, rr, p, k, nl, sl := 1<<uint(1+rng.Intn(10)), 1+rng.Intn(2), 1+rng.Intn(2), 32, 12, 32
+		switch rng.Intn(8) {
+		case 0:
+			n = []int{0, 1, 3, -2}[rng.Intn(4)]
+		case 1:
+			rr = []int{0, -1}[rng.Intn(2)]
+		case 2:
+			p = []int{0, -1}[rng.Intn(2)]
+		case 3:
+			k = []int{0, 31, 33, -1}[rng.Intn(4)]
+		case 4:
+			nl = []int{0, 11, 13, 24}[rng.Intn(4)]
+		case 5:
+			sl = rng.Intn(65)
+		}
+		meta := fmt.Sprintf(`{"n":%d,"r":%d,"p":%d,"keyLen":%d,"salt":"%s","nonce":"%s"}`, n, rr, p, k,
+			base64.StdEncoding.EncodeToString(wfix.RandBytes(rng, sl)), base64.StdEncoding.EncodeToString(wfix.RandBytes(rng, nl)))
+		return meta, n > 1 && n&(n-1) == 0 && rr > 0 && p > 0 && k == 32 && nl == 12
+	}
 	ns := []int{0, 1, 2, 3, 4, 5, 8, 16, 16, 16, 64, 256, 1024, 4096, 32768, -1, -2, -16}
 	rs := []int{0, 1, 1, 1, 2, 8, -1, -2}
 	ps := []int{0, 1, 1, 1, 2, 3, -1, -2}
@@ -731,7 +752,14 @@ func scryptMeta(rng *rand.Rand) (string, bool) {
 			k = 0
 		}
 	}
-	reach := n > 1 && n&(n-1) == 0 && rr > 0 && p > 0 && k == 32
+	reach := n > 1 && n&(n-1) == 0 && rr > 0 && p > 0 && k == 32 && nl == 12
+	hasNonce := false
+	for _, f := range fields {
+		if strings.HasPrefix(f, `"nonce"`) {
+			hasNonce = true
+		}
+	}
+	reach = reach && hasNonce
 	return "{" + strings.Join(fields, ",") + "}", reach
 }
 
@@ -1013,6 +1041,10 @@ func evalB(r *vf.Run, in input, res result) {
 	r.Count("B.inputs", 1)
 	r.Count("B."+in.cipher+"."+in.class, 1)
 	r.Count("B.outcome."+res.outcome, 1)
+	if in.sub == "crafted_meta.reached_aead" {
+		r.Count("B."+in.cipher+"."+in.sub, 1) // header well-formed enough that only authentication can refuse it
+		in.sub = ""
+	}
 	if key := sha256.Sum256(append([]byte(in.cipher+"|"+string(in.pw)+"|"), in.data...)); r.Quick() || key[0]&15 == 0 {
 		r.DistinctBytes(key[:]) // (sampled 1/16 in the thorough tier to bound memory)
 	}
